@@ -32,6 +32,24 @@ T = [
  ("C17-atoi-19char-branch", "C17", "INT attribute, malformed value of exactly 19 characters", "MISSED", "19-character malformed INT mutants; translator t_validate + theorem C17_conversion_sites_strict (every conversion site strict)", "VIOLATION with a concrete input; the proof obligation breaks as well"),
  ("C18-stage0-cache-overwrite-test-inverted", "C18", "persistent quantity post-processed by a stage-0 Symbol with overwrite=yes", "MISSED", "overwriting identity Symbols (stage 0/1/2) on persistent scalars in sim/corr_restart.py", "VIOLATION with a concrete system"),
  ("C19-bonded-maxstage-vs-nonbonded", "C19", "bonded symbol of stage >= 1 and a non-bonded symbol chain of at least that depth on the same species pair", "MISSED", "staged bonded and non-bonded symbol chains with a brute-force oracle in sim/corr_bonds.py", "VIOLATION with a concrete scenario"),
+ ("C01b-deactivate-link-next-and-prev", "C01", "the head link of the active-link list and the link that becomes the new head both deactivated in the same step", "caught (round 2)", "-", "VIOLATION with a concrete scenario; t_celllists also rejects the changed condition"),
+ ("C02b-frozen-pairs-not-cleared-on-rebuild", "C02", "Verlet creator, frozen particles near free ones, a second list rebuild", "MISSED (no frozen particles in the Verlet scenarios)",
+  "frozen particles in sim/corr_verlet.py (generator, exactly-once oracle over free/frozen pairs)", "VIOLATION with a concrete scenario"),
+ ("C04b-peters-thermostat-second-guard", "C04", "ThermostatPetersIso with frozen partners", "would be missed: thermostats are outside the exact model",
+  "translate/t_pairguards.py + theorem C04_guards_table over EVERY write to a pair partner in the tree; sim/oracle_pairmods.py (FDPD, LJ, ThermostatPetersIso: frozen untouched, momentum)", "VIOLATION with a concrete scenario; the guard-table theorem breaks as well"),
+ ("C05b-random-frozen-pairs-wrong-buffer", "C05", "<Phase randomPairs=yes>, frozen partners, a pair force", "MISSED (randomPairs never generated)",
+  "randomPairs in a third of the dyn scenarios (this exposed a genuine defect, fixed in 04b1d30); lambda oracle applied more often", "VIOLATION with a concrete scenario"),
+ ("C06b-second-factor-symbols-not-reported", "C06", "a pair sum reading a derived symbol only through particleFactor_j", "MISSED",
+  "one-sided-factor symbol chains in the dyn generator; C06 also compares required vs assigned stages on multi-species dyn runs and runs the pair-sum oracle when stages differ", "VIOLATION with a concrete scenario"),
+ ("C07b-vector-second-guard-actsOnFirst", "C07", "PairParticleVector, frozen partners, frozen species registered first", "caught (round 2)", "-", "VIOLATION with a concrete scenario; Bridge_pair_guards breaks as well"),
+ ("C09b-leave-offset-upper-face-strict", "C09", "a coordinate exactly on the upper face of the cell while another direction crosses", "caught without a failing input (the model follows the regenerated comparison; lemmas about it fail)",
+  "oracle: PARTICLEFLEWTOOFAR although no particle moves farther than one cell", "VIOLATION with a concrete scenario"),
+ ("C10b-stage0-caches-loop-over-frozen", "C10", "per-particle expression with stage 0 or 2 on a species with frozen particles", "MISSED",
+  "overwriting per-particle expressions of stage 0/1/2 in sim/oracle_pairmods.py", "VIOLATION with a concrete scenario"),
+ ("C11b-pid-counter-concatenated", "C11", "pids p and 10p+k, counters 10..19 and 0..9, both probes before either open", "caught by the correspondence (file names differ from the model's)",
+  "translator extracts the separator between pid and counter; theorem C11_name_format", "VIOLATION no-failing-input-found (real pids cannot be chosen by the harness); the name-format theorem breaks"),
+ ("C15b-clear-keeps-free-slots", "C15", "delete, clear, refill to exactly the capacity, delete, new", "the check itself crashed on the aborted harness output (reported as no-failing-input-found)",
+  "the reference oracle treats an assertion / abort of the real class as the failure it is", "VIOLATION with a concrete op sequence"),
  ("C20-mergecopies-second-slot-index", "C20", "OpenMP build, PairParticleScalar on a mixed species pair, differing per-species copy-slot counters", "caught", "-", "VIOLATION with a concrete scenario (serial vs OpenMP)"),
 ]
 rows = ["| seeded change | property | first result | strengthened | now |", "|---|---|---|---|---|"]
